@@ -186,7 +186,39 @@ def make_book(rng):
         p2 = put(f'={fn}({sp[1]})', nargs=1)
         both = put(f'={fn}({sp[0]},{sp[1]})', nargs=2) if fn != 'COUNTBLANK' else None
         laws.append((fn, whole, p1, p2, both, text, sp))
-    spec = wbspec.spec(wbspec.sheet('T', cells[0]), wbspec.sheet('U', cells[1]))
+    # sheet W: data in columns X..AC only - areas whose corners lie on both sides of the Z -> AA step of the column letters
+    wide = {}
+    for r in range(1, 5):
+        for c in range(24, 30):
+            v = content(rng)
+            if v is not None and v != '=""':
+                wide[wbspec.a1(r, c)] = v if rng.random() < 0.5 or is_num(v) else rng.randrange(1, 90)
+    L = wbspec.get_column_letter
+    for _ in range(8):
+        c1 = rng.randrange(24, 27)
+        c2 = rng.randrange(27, 30)
+        r1 = rng.randrange(1, 5)
+        r2 = rng.randrange(r1, 5)
+        kind = rng.choice(['row', 'rect', 'wcols', 'wcols'])
+        if kind == 'row':
+            text, box = f'W!{L(c1)}{r1}:{L(c2)}{r1}', (r1, c1, r1, c2)
+        elif kind == 'rect':
+            text, box = f"'W'!{L(c1)}{r1}:{L(c2)}{r2}", (r1, c1, r2, c2)
+        else:
+            text, box = f'W!{L(c1)}:{L(c2)}', None
+        fn = rng.choice(['SUM', 'COUNT', 'MAX', 'MIN', 'AVERAGE', 'COUNTBLANK'])
+        whole = put(f'={fn}({text})', nargs=1)
+        k = rng.randrange(c1, c2)
+        if fn in ('SUM', 'COUNT', 'MAX', 'MIN', 'COUNTBLANK'):
+            if box:
+                sp = (f'W!{L(c1)}{box[0]}:{L(k)}{box[2]}', f'W!{L(k + 1)}{box[0]}:{L(c2)}{box[2]}')
+            else:
+                sp = (f'W!{L(c1)}:{L(k)}', f'W!{L(k + 1)}:{L(c2)}')
+            p1 = put(f'={fn}({sp[0]})', nargs=1)
+            p2 = put(f'={fn}({sp[1]})', nargs=1)
+            both = put(f'={fn}({sp[0]},{sp[1]})', nargs=2) if fn != 'COUNTBLANK' else None
+            laws.append((fn, whole, p1, p2, both, text, sp))
+    spec = wbspec.spec(wbspec.sheet('T', cells[0]), wbspec.sheet('U', cells[1]), wbspec.sheet('W', wide))
     return spec, forms, laws
 
 
